@@ -76,11 +76,18 @@ type stageRig struct {
 	base int64 // time base of the case
 
 	pause *pausePoint // one-shot pause point armed by a race operation
+
+	// the finalize handler held between isFileReady and finalize (`finhold` ... `finrelease`): it is parked at
+	// the hook point "stage.finh.ready" until `finrelease` closes held.resume (or for good, when the instance
+	// is abandoned by a crash: a dead process does nothing any more)
+	held     *pausePoint
+	heldName string
 }
 
 type pausePoint struct {
 	label  string
 	key    string // first hook argument must equal this ("" = any)
+	root   string // last hook argument (the stage root of the instance) must equal this ("" = any)
 	hit    chan struct{}
 	resume chan struct{}
 }
@@ -184,6 +191,7 @@ func (r *stageRig) newInstance(dir string) {
 	r.vOrder = nil
 	r.doneEvts = nil
 	r.auto = false
+	r.held, r.heldName = nil, ""
 	r.root = filepath.Join(dir, "stage")
 	r.final = filepath.Join(dir, "final")
 	r.logdir = filepath.Join(dir, "log")
@@ -229,7 +237,7 @@ func (r *stageRig) onHook(label string, kv ...any) {
 		first, _ = kv[0].(string)
 	}
 	r.mu.Lock()
-	if p := r.pause; p != nil && p.label == label && (p.key == "" || p.key == first) {
+	if p := r.pause; p != nil && p.label == label && (p.key == "" || p.key == first) && (p.root == "" || p.root == lastString(kv)) {
 		r.pause = nil
 		r.mu.Unlock()
 		close(p.hit)
@@ -388,6 +396,12 @@ func (r *stageRig) onHook(label string, kv ...any) {
 	r.mu.Unlock()
 }
 
+func (r *stageRig) isHeld() bool {
+	r.mu.Lock()
+	defer r.mu.Unlock()
+	return r.held != nil
+}
+
 // onOpened is called through the path-carrying hook "stage.recv.opened".
 func (r *stageRig) signalOpened(path string) {
 	r.mu.Lock()
@@ -449,8 +463,15 @@ func (r *stageRig) waitFor(d time.Duration, cond func() bool) bool {
 }
 
 func (r *stageRig) releaseGate(kind, name string) (string, bool) {
+	n, _, ok := r.releaseGateUntil(kind, name, nil)
+	return n, ok
+}
+
+// releaseGateUntil opens the gate for one worker and waits until that worker is done or, when pp is given, until
+// it is parked at the pause point pp (then `paused` is true and the worker stays there until pp.resume is closed).
+func (r *stageRig) releaseGateUntil(kind, name string, pp *pausePoint) (wname string, paused bool, ok bool) {
 	var w *gateWaiter
-	ok := r.waitFor(10*time.Second, func() bool {
+	ok = r.waitFor(10*time.Second, func() bool {
 		want := ""
 		if kind == "process" {
 			// the oldest queued validation of that name (the validators take the
@@ -482,7 +503,7 @@ func (r *stageRig) releaseGate(kind, name string) (string, bool) {
 		return false
 	})
 	if !ok {
-		return "", false
+		return "", false, false
 	}
 	key := "validatek:" + w.key
 	if kind == "finh" {
@@ -496,8 +517,21 @@ func (r *stageRig) releaseGate(kind, name string) (string, bool) {
 		}
 	}
 	r.mu.Unlock()
+	if pp != nil {
+		r.mu.Lock()
+		r.pause = pp
+		r.mu.Unlock()
+	}
 	close(w.ch)
 	ok = r.waitFor(20*time.Second, func() bool {
+		if pp != nil {
+			select {
+			case <-pp.hit:
+				paused = true
+				return true
+			default:
+			}
+		}
 		n := 0
 		for _, e := range r.doneEvts {
 			if e == key {
@@ -506,7 +540,25 @@ func (r *stageRig) releaseGate(kind, name string) (string, bool) {
 		}
 		return n > n0
 	})
-	return w.name, ok
+	if pp != nil {
+		r.mu.Lock()
+		if r.pause == pp {
+			r.pause = nil
+		}
+		r.mu.Unlock()
+	}
+	return w.name, paused, ok
+}
+
+// countDone: how often the done event `key` was seen (call with r.mu held or from waitFor's condition)
+func (r *stageRig) countDone(key string) int {
+	n := 0
+	for _, e := range r.doneEvts {
+		if e == key {
+			n++
+		}
+	}
+	return n
 }
 
 // settle runs the pipeline to quiescence one action at a time, in the model's canonical
@@ -520,6 +572,7 @@ func (r *stageRig) settle() bool {
 			next = r.vOrder[0]
 		}
 		pf := r.pendF
+		held := r.held != nil
 		r.mu.Unlock()
 		if pending == 0 {
 			return true
@@ -532,6 +585,11 @@ func (r *stageRig) settle() bool {
 				return false
 			}
 			continue
+		}
+		if held {
+			// the finalize handler (one goroutine) is parked in the middle of an item: nothing leaves the
+			// finalize queue; everything that is still outstanding is queued behind it
+			return true
 		}
 		if pf > 0 {
 			if _, ok := r.releaseGate("finh", ""); !ok {
@@ -996,6 +1054,62 @@ func (e *stageExec) do1(op []string) string {
 			return "err-not-queued"
 		}
 		if _, ok := r.releaseGate("process", unesc(op[1])); !ok {
+			return "harness-timeout"
+		}
+		return "ok"
+	case len(op) == 3 && (op[0] == "finh" || op[0] == "finhold") && r.isHeld():
+		return "err-busy"
+	case len(op) == 3 && op[0] == "finhold":
+		// the finalize handler runs its decision phase for the head of its channel (pre-check of the cached state
+		// WITHOUT the file lock, isFileReady) and, if it decides to finalize, is parked right before finalize()
+		// (hook point stage.finh.ready) while the operations that follow run; `finrelease` lets it go on
+		r.mu.Lock()
+		q := r.pendF
+		r.mu.Unlock()
+		if q <= 0 {
+			return "err-not-queued"
+		}
+		var head string
+		if !r.waitFor(10*time.Second, func() bool {
+			for _, x := range r.waiters {
+				if x.kind == "finh" {
+					head = x.name
+					return true
+				}
+			}
+			return false
+		}) {
+			return "harness-timeout"
+		}
+		if head != unesc(op[1]) {
+			return "err-not-head"
+		}
+		pp := &pausePoint{label: "stage.finh.ready", key: head, root: r.root, hit: make(chan struct{}), resume: make(chan struct{})}
+		_, paused, ok := r.releaseGateUntil("finh", head, pp)
+		if !ok {
+			return "harness-timeout"
+		}
+		if paused {
+			r.mu.Lock()
+			r.held, r.heldName = pp, head
+			r.mu.Unlock()
+			return "held"
+		}
+		return "ok" // skipped (not validated any more) or parked on its predecessor
+	case len(op) == 3 && op[0] == "finrelease":
+		r.mu.Lock()
+		pp, hn := r.held, r.heldName
+		key := "finalize:" + hn
+		n0 := r.countDone(key)
+		if pp != nil && hn == unesc(op[1]) {
+			r.held, r.heldName = nil, ""
+		}
+		r.mu.Unlock()
+		if pp == nil || hn != unesc(op[1]) {
+			return "err-not-held"
+		}
+		close(pp.resume)
+		if !r.waitFor(20*time.Second, func() bool { return r.countDone(key) > n0 }) {
 			return "harness-timeout"
 		}
 		return "ok"
@@ -1793,7 +1907,11 @@ func (e *stageExec) oracleNotLost() {
 }
 
 // oracleClean: C20 — cleaning removes only partials and companions, and a partial whose
-// version is not in the receive log only when a complete copy of that name is staged.
+// version (name, companion hash) is not in the receive log only when a complete copy of that
+// very version passed validation and is held in the staging area (`<n>.wait` with the bytes of
+// that hash: C20_only_delivered, clause (c)). A staged `.full` is no excuse: it awaits
+// validation or FAILED it (the repaired defect: in cache state failed the cleaner removed the
+// partial of the retransmission in progress).
 func (e *stageExec) oracleClean(before, after map[string][]byte) {
 	for _, p := range sortedNames(before) {
 		if _, ok := after[p]; ok {
@@ -1815,10 +1933,14 @@ func (e *stageExec) oracleClean(before, after map[string][]byte) {
 					okLog = true
 				}
 			}
-			_, full := after["stage/"+name+".full"]
-			_, wait := after["stage/"+name+".wait"]
-			if !okLog && !full && !wait {
-				e.fails = append(e.fails, fmt.Sprintf("clean-removed-undelivered: partial of %s (companion hash %s) removed although that version is not logged and no complete copy is staged", name, e.tokOfHash(hash)))
+			held := false
+			if wb, ok := after["stage/"+name+".wait"]; ok {
+				// without a companion nothing is on record about the partial: any held copy of the name counts;
+				// after a `corrupt` of that name the held bytes cannot be compared with the hash
+				held = hash == "" || md5hex(wb) == hash || e.corrupted[name]
+			}
+			if !okLog && !held {
+				e.fails = append(e.fails, fmt.Sprintf("clean-removed-undelivered: partial of %s (companion hash %s) removed although that version is not logged and no validated copy of it is held", name, e.tokOfHash(hash)))
 			}
 		case strings.HasPrefix(p, "stage/") && strings.HasSuffix(p, ".cmp"):
 			name := strings.TrimSuffix(strings.TrimPrefix(p, "stage/"), ".cmp")
